@@ -99,6 +99,42 @@ def run(R):
         for i in range(0, len(pairs), 2):
             if out[i] != out[i + 1]:
                 bad.append((pairs[i], "crypt_gensalt(NULL) differs from crypt_gensalt(preferred): %s vs %s" % (out[i], out[i + 1]), out[i]))
+    # the same clauses in other build configurations (the property's "every build configuration"): the tree's own generators + gcc in a scratch
+    # directory; selections with another, with a weaker, and with no default-capable method (seeded/C18c)
+    import os, shutil, subprocess, cbuild
+    from checks.common import PREFIXES as PFX
+    ncfg = 0
+    for name, sel in [("all-but-yescrypt", [m for m in PFX if m != "yescrypt"]), ("glibc-like", ["sha512crypt", "sha256crypt", "md5crypt", "descrypt"]),
+                      ("bcrypt-and-legacy", ["bcrypt", "md5crypt", "nt"]), ("no-default-capable", ["descrypt", "md5crypt", "sha256crypt"])]:
+        d = os.path.join(R.scratch, "c18cfg_" + name); os.makedirs(d, exist_ok=True)
+        he = "," + ",".join(sorted(sel)) + ","
+        try:
+            cbuild.gen_headers(d, hashes_enabled=he, compat_abi=("yes" if "descrypt" in sel else "no"))
+            objs = cbuild.compile_lib(d)
+            exe = cbuild.build_harness(d, os.path.join(os.path.dirname(os.path.abspath(__file__)), "..", "harness", "harness.c"), objs, os.path.join(d, "harness"),
+                                       extra=["-DXC_NO_PRIM"], ldextra=["-Wl,--wrap=arc4random_buf"])
+        except Exception as e:
+            bad.append(("CFG " + he, "the library does not build with --enable-hashes=%s: %s" % (he, str(e)[-300:]), "")); continue
+        def ask(lines): return subprocess.run([exe], input="\n".join(lines) + "\n", text=True, capture_output=True).stdout.splitlines()
+        cand = [m for m in ("yescrypt", "bcrypt", "sha512crypt") if m in sel]
+        want = hx(PFX[cand[0]]) if cand else "NULL"
+        pline = ask(["P"])[0]; pref = fields(pline).get("pref")
+        tag = "[--enable-hashes=%s] " % he
+        ncfg += 1
+        if pref != want:
+            bad.append((tag + "P", "crypt_preferred_method is %s; the strongest enabled default-capable method is %s" % (pref, want), pline)); 
+        if pref and pref != "NULL":
+            st = ask(["K " + pref])[0]
+            if st != "status=0": bad.append((tag + "K " + pref, "the preferred method's prefix is not OK for crypt_checksalt in this configuration: " + st, st))
+            o = ask(["G rn - 0 %s 64 192" % hx(rb), "G rn %s 0 %s 64 192" % (pref, hx(rb))])
+            if o[0] != o[1] or fields(o[0]).get("ret") == "NULL":
+                bad.append((tag + "G rn - 0 %s 64 192" % hx(rb), "crypt_gensalt(NULL) does not work like crypt_gensalt(preferred): %s vs %s" % (o[0][:120], o[1][:120]), o[0]))
+        else:
+            o = ask(["G rn - 0 %s 64 192" % hx(rb)])
+            if fields(o[0]).get("ret") != "NULL":
+                bad.append((tag + "G rn - 0 ...", "crypt_gensalt(NULL) succeeds although no default-capable method is enabled", o[0]))
+        shutil.rmtree(d, ignore_errors=True)
+    R.cov["configurations_built"] = ncfg
     R.cov["evaluations"] = n_strings
     R.cov["exhaustive"] = True
     R.cov["rule"] = ("every byte string (bytes 1..255) of length <= %d, 4-byte strings starting with '$' or '_' (%s), random longer strings, every tag with filler "
